@@ -688,7 +688,11 @@ class FileSystemProvider(Provider):                     # pylint: disable=too-ma
 
     def hash_data(self, file_like) -> bytes:
         with self._api():
-            return self._fast_hash_data(file_like)[0]
+            fhash, final = self._fast_hash_data(file_like)
+            if not final:
+                file_like.seek(0, os.SEEK_SET)
+                fhash = get_hash(file_like)
+            return fhash
 
     def info_path(self, path: str, use_cache=True) -> typing.Optional[OInfo]:
         return self.__info_path(path, None, canonicalize=True)
